@@ -1,7 +1,9 @@
 #!/bin/sh
-# Re-runs every seeded change against the check named in its meta.json (isolated), prints one line each.
+# Re-runs every seeded change (or those whose id matches the optional shell pattern $1, e.g. 'C15-*')
+# against the check named in its meta.json (isolated), prints one line each.
+PAT="${1:-*}"
 cd /verif/seeded || exit 2
-for d in */; do
+for d in $PAT/; do
   id=${d%/}
   p=$(python3 -c "import json;print(json.load(open('$id/meta.json'))['breaks_property'])" 2>/dev/null) || continue
   # C17-a3 and some others are caught by a neighbouring check as recorded in meta.json; the primary property is tried
